@@ -27,7 +27,7 @@ WAVES = ["rect", "tri", "saw", "cos", "sin"]
 
 
 def budget_s(tier):
-    return 300 if tier == "quick" else 1800
+    return 900 if tier == "quick" else 3600
 
 
 def variants(kind, tier):
